@@ -24,6 +24,12 @@ TEXTSTR = ["w/5", "11*l", "abc", "1k", "a b", "sim_param_width", "x=1", " w/5", 
 VPULSE_MAP = {"delay": "td", "rise": "tr", "fall": "tf", "width": "tpw", "period": "tper", "v1": "v1", "v2": "v2"}
 
 
+# the single-letter prefix symbols (SI; `D` for deca, `u` next to `µ`) and the long names
+ALIAS_EXP = {"y": -24, "z": -21, "a": -18, "f": -15, "p": -12, "n": -9, "µ": -6, "u": -6, "m": -3, "c": -2, "d": -1, "D": 1, "H": 2, "K": 3, "M": 6, "G": 9,
+             "T": 12, "P": 15, "E": 18, "Z": 21, "Y": 24, "YOCTO": -24, "ZEPTO": -21, "ATTO": -18, "FEMTO": -15, "PICO": -12, "NANO": -9, "MICRO": -6, "MILLI": -3,
+             "CENTI": -2, "DECI": -1, "UNIT": 0, "DECA": 1, "HECTO": 2, "KILO": 3, "MEGA": 6, "GIGA": 9, "TERA": 12, "PETA": 15, "EXA": 18, "ZETTA": 21, "YOTTA": 24}
+
+
 def scalar_values(quick):
     """Value specs for a Scalar-typed field."""
     out = []
@@ -35,6 +41,7 @@ def scalar_values(quick):
     for m in MANTS:
         for e in (-9, 0, 3):
             out += [("prefixed_e", m, e), ("prefixed_sym", m, e), ("prefixed_chain", m, e)]
+    out += [("prefixed_alias", "1.50", a) for a in ALIAS_EXP]
     out += [("int", i) for i in INTS]
     out += [("float", repr(f)) for f in FLOATS]
     out += [("decimal", m) for m in MANTS]
@@ -51,6 +58,12 @@ def mk_value(spec):
     k = spec[0]
     if k == "prefixed":
         return h.Prefixed(number=Decimal(spec[1]), prefix=Prefix.from_exp(spec[2]))
+    if k == "prefixed_alias":
+        import hdl21.prefix as hpfx
+
+        import unicodedata
+
+        return Decimal(spec[1]) * getattr(hpfx, unicodedata.normalize("NFKC", spec[2]))  # identifiers are NFKC-normalised (the micro sign)
     if k == "prefixed_e":
         from hdl21.prefix import e as hexp
 
@@ -87,6 +100,8 @@ def expected(spec, scalar_field=True):
     k = spec[0]
     if k in ("prefixed", "prefixed_e", "prefixed_sym", "prefixed_chain"):
         return ("num", {Fraction(spec[1]) * Fraction(10) ** spec[2]}, spec[2])
+    if k == "prefixed_alias":
+        return ("num", {Fraction(spec[1]) * Fraction(10) ** ALIAS_EXP[spec[2]]}, ALIAS_EXP[spec[2]])
     if k == "int":
         return ("num", {Fraction(spec[1])}, None)
     if k == "float":
